@@ -130,7 +130,7 @@ Definition get_marker (d : store) : option marker :=
   match d KMarker with Some (VMarker m) => Some m | _ => None end.
 
 (** chainhandle.go:getTx — raw index entry, then the main-chain check *)
-Inductive txstatus := TxAbsent | TxSide (id : bid) (i : nat) | TxMain (id : bid) (i : nat).
+Inductive txstatus := TxAbsent | TxSide (id : bid) (i : nat) | TxMain (id : bid) (i : nat) | TxPanic.
 Definition get_tx_raw (d : store) (t : txid) : option (block * nat) :=
   match d (KTx t) with
   | Some (VTxIdx id i) =>
@@ -146,7 +146,7 @@ Definition get_tx (d : store) (t : txid) : txstatus :=
   | Some (b, i) =>
       match get_block_by_no d (no b) with
       | Some m => if hash_field m =? hash_field b then TxMain (hash_field b) i else TxSide (hash_field b) i
-      | None => TxSide (hash_field b) i     (* the code dereferences nil here; unreachable under Inv *)
+      | None => TxPanic     (* the code dereferences a nil block here; unreachable under Inv *)
       end
   end.
 (** chainhandle.go:getReceipts(blockHash): block known, on the main chain, receipts stored *)
